@@ -51,6 +51,12 @@ def gen_case(rng, pool, malformed=False):
     focus_tgts = sorted({pool[i]["tgt"] for i in focus})
     focus_lvls = sorted({pool[i]["lvl"] for i in focus})
     cols = gen_cols(rng, ncols, focus_tgts, focus_lvls, malformed)
+    # `Dispatch::from_static` collectors (zero-sized unit structs in one static: same data address, different collectors):
+    # marked by target index 100 in the col line; a static collector's handle is never dropped (its registrar always upgrades)
+    statics = set()
+    if rng.random() < 0.35:
+        statics = {c for c in range(ncols) if rng.random() < 0.6}
+        cols = [(thr, tg + [100], dyn, hint) if c in statics else (thr, tg, dyn, hint) for c, (thr, tg, dyn, hint) in enumerate(cols)]
     ops = []
     created = 0
     handle = set()
@@ -70,8 +76,8 @@ def gen_case(rng, pool, malformed=False):
             ops.append(("new",))
             handle.add(created)
             created += 1
-        elif r < 0.16 and handle:
-            c = rng.choice(sorted(handle))
+        elif r < 0.16 and handle - statics:
+            c = rng.choice(sorted(handle - statics))
             ops.append(("drop", c))
             handle.discard(c)
         elif r < 0.28 and (handle or rng.random() < 0.1):
@@ -101,7 +107,9 @@ def gen_case(rng, pool, malformed=False):
             # ops on dead / non-existent ids, closes without a scope
             m = rng.randrange(5)
             if m == 0:
-                ops.append(("drop", rng.randrange(ncols + 1)))
+                c = rng.randrange(ncols + 1)
+                if c not in statics:
+                    ops.append(("drop", c))
             elif m == 1:
                 ops.append(("open", t, rng.randrange(ncols + 1) + 1))
                 if ops[-1][2] - 1 in handle:
@@ -238,7 +246,8 @@ def registrar_dies(case):
 def run(ctx):
     rep = Report(ctx)
     rep.rule = ("seeded histories (5-40 ops, 1-4 real threads, 1-6 collectors with level threshold x target set x static/dynamic "
-                "x optional hint, 64 real static callsites (span!/event!/enabled!) incl. two with identical metadata, Dispatch::none scopes), "
+                "x optional hint, created with Dispatch::new or (zero-sized, address-sharing) Dispatch::from_static, 64 real static callsites "
+                "(span!/event!/enabled!) incl. two with identical metadata, Dispatch::none scopes), "
                 "one process per history, on the default build and on a `max_level_info` build. "
                 "non-trivial = a drop / close / rebuild / Dispatch::new lies between two emissions at the same callsite, or two "
                 "created collectors answer register_callsite differently for an emitted callsite; distinct = distinct op list + filters (+ build)")
@@ -255,7 +264,8 @@ def run(ctx):
                        "span handles are dropped inside the emitting op (a live Span would keep its collector alive)",
                        "STATIC_MAX_LEVEL is a parameter of the model (read from the build; level_filters.rs's feature table is read by the translator); "
                        "a callsite above the compile-time cap is compiled out by documented design and the theorem says so explicitly",
-                       "Dispatch::from_static / no-std paths not modelled",
+                       "Dispatch::from_static collectors are modelled as collectors whose handle is never dropped (C01_static_collector_stays_live); "
+                       "registering the same static collector twice, and no-std paths, are not modelled",
                        "dispatch.rs variant read off the source on this run: " + ("repaired (fix aa353f7)" if d["fx"] else "NOT the repaired shape")]
     # ---- leg A
     rep.proof = coq_prove(ctx, "C01", ["theories/Properties/C01.vo"])
@@ -323,6 +333,11 @@ def explore(ctx, rep, fx, tag, binpath, info, cases, g):
             rep.count("op:" + o[0])
         if nontrivial(pool, case):
             rep.nontrivial.add(("" if tag == "debug" else tag + "\n") + D.case_text(case))
+        nst = sum(1 for col in case["cols"] if 100 in col[1])
+        if nst:
+            rep.count("histories with Dispatch::from_static collectors (zero-sized, sharing an address)")
+            if nst > 1:
+                rep.count("histories with two or more from_static collectors")
         if registrar_dies(case):
             rep.count("histories in which a registrar dies (last strong reference gone) before a later emit / Dispatch::new / rebuild")
         for o, r in zip(case["ops"], recs):
